@@ -121,6 +121,13 @@ func (s *objectStore) delete(o Object) {
 	}
 }
 
+func (s *objectStore) deleteAll(of Object) {
+	s.Lock()
+	defer s.Unlock()
+
+	delete(s.m, stype(of))
+}
+
 func (s *objectStore) count(of Object) (n int) {
 	s.RLock()
 	defer s.RUnlock()
@@ -237,16 +244,23 @@ func (db *DB) loadSchema(of Object) (s *Schema, err error) {
 func (db *DB) startAsyncWritesRoutine(s *Schema) {
 	step := time.Millisecond * 100
 	if s.asyncWritesEnabled() && !s.AsyncWrites.routineStarted {
-		s.AsyncWrites.routineStarted = true
+		// settings this routine works for, Create may replace them later
+		aw := s.AsyncWrites
+		aw.routineStarted = true
 		go func() {
 			for db.ctx.Err() == nil {
 				for slept := time.Duration(0); ; slept += step {
-					n := db.safeCountPendingAsyncW(s.object)
-					if n >= s.AsyncWrites.Threshold || slept >= s.AsyncWrites.Timeout {
+					n, current := db.safeCountPendingAsyncW(s, aw)
+					// settings got changed: either async writes are disabled
+					// or another routine is in charge of the new settings
+					if !current {
+						return
+					}
+					if n >= aw.Threshold || slept >= aw.Timeout {
 						// enter critical section
 						db.Lock()
 						// checking db.ctx not to race with db.Close function
-						if db.ctx.Err() == nil {
+						if db.ctx.Err() == nil && s.AsyncWrites == aw {
 							if err := db.flushAllAndCommit(s.object); err != nil {
 								panic(err)
 							}
@@ -262,10 +276,12 @@ func (db *DB) startAsyncWritesRoutine(s *Schema) {
 	}
 }
 
-func (db *DB) safeCountPendingAsyncW(of Object) (n int) {
+// safeCountPendingAsyncW returns the number of pending writes and whether aw is
+// still the asynchronous writes settings of the schema
+func (db *DB) safeCountPendingAsyncW(s *Schema, aw *Async) (n int, current bool) {
 	db.RLock()
 	defer db.RUnlock()
-	return db.asyncw.count(of)
+	return db.asyncw.count(s.object), s.AsyncWrites == aw
 }
 
 func (db *DB) schema(of Object) (s *Schema, err error) {
@@ -558,10 +574,26 @@ func (db *DB) Create(o Object, s Schema) (err error) {
 	case err == nil:
 		s.initialize(db, o)
 
+		wasAsync, wasCaching := es.asyncWritesEnabled(), es.mustCache()
+
 		// the schema is existing and we don't need to build a new one
 		// update existing schema with changes
 		if err = es.update(&s); err != nil {
 			return
+		}
+
+		// pending writes would never be flushed (nor be readable)
+		// if asynchronous writes got disabled
+		if wasAsync && !es.asyncWritesEnabled() {
+			if err = db.flushAll(o); err != nil {
+				return
+			}
+		}
+
+		// the cache is not kept up to date anymore, it must not
+		// be found stale if caching is enabled again later
+		if wasCaching && !es.mustCache() {
+			db.cache.deleteAll(o)
 		}
 
 		return db.saveSchema(o, es, true)
